@@ -8,15 +8,18 @@ from props import dbcommon
 ID = 'C05'
 LEAN_MODULES = ['PybtexModel.Props.C05']
 THEOREMS = {
+    'C05_reader_wf': 'domain: every database the reader builds from a file of well-formed entries (filtered by citations or not) satisfies DbWF, and reading never raises: the hypothesis DbWF of the theorems below is a container invariant, no hidden restriction',
     'C05_expand_spec': 'the cited part of the result = case-insensitive de-duplication (first spelling wins) of the citation list with * replaced in place by all database keys in database order',
     'C05_crossref_spec': 'the appended part = the uncited parents in the order their reference count over the cited list reaches min_crossrefs; reports = the dangling cross-references of the entries that go into the bibliography (cited, then appended)',
     'C05_no_dup': 'no two keys of the result are equal up to case',
-    'C05_cited_first_in_order': 'explicitly cited keys come first, in first-citation order, de-duplicated; cross-referenced extras only after every cited key',
-    'C05_wildcard_db_order': '* stands for every database entry in database order (those not already cited)',
+    'C05_cited_first_in_order': 'explicit citations that stand BEFORE any wildcard (hypothesis: * not in pre) come first, in first-citation order, de-duplicated, spelled as first cited; the rest of the cited part is an existential tail here (fully determined by C05_expand_spec); cross-referenced extras only after every cited key',
+    'C05_wildcard_db_order': '* stands for every database entry in database order: after explicit citations pre WITHOUT a wildcard the first * contributes exactly the database keys not cited in pre, in database order and DATABASE spelling (what follows is an existential tail, determined by C05_expand_spec); [*] alone resolves to the whole database in order',
     'C05_threshold': 'an uncited parent is appended iff at least min_crossrefs cited entries reference it, exactly once, in the order the threshold is reached',
-    'C05_missing_reported': 'a cited key missing from the database is reported and not kept by both front ends, which never crash',
+    'C05_missing_reported': 'a cited key missing from the database is reported and not kept by both front ends, which never end in an uncaught exception; the BibTeX engine emits exactly the resolved keys that have an entry, the Python engine the stored keys of those entries: proved equal only UP TO LETTER CASE (exact spelling: C05_citation_spelling_engines)',
     'C05_dangling_reported': 'a dangling cross-reference of an entry that goes into the bibliography (cited or appended by the threshold) is reported (bad cross-reference), its target is never added',
-    'C05_citation_spelling_wins': 'the spelling of a key in the citation list wins over its spelling in the database',
+    'C05_citation_spelling_wins': "PARTIAL (holds only before a wildcard / under consistent spelling): filtered reading: a stored key matching a citation is SOME citation's spelling, and is c when every citation of it is spelled c; the first-cited spellings of citations BEFORE any * are a prefix of the result. Unqualified the clause is false: C05_spelling_exact; engines: C05_citation_spelling_engines",
+    'C05_citation_spelling_engines': "reading both engines use (file filtered by the citations), wherever a * stands: an explicit citation c cited in one consistent spelling (the quantifier's proviso) is in the resolved list as c and in no other spelling; every key either engine emits that equals c up to case is c; both emit c when the file has its entry",
+    'C05_spelling_exact': "exact rule, every database / citation list / threshold: a cited key is spelled as at its FIRST occurrence up to case in the *-substituted list (citation's spelling iff cited before the first *, else the database's); appended keys as in the database; a key a * contributes is there in the database spelling and NO other: the citation does NOT win there",
     'C05_filtered_eq_unfiltered_partial': 'reading restricted to the wanted citations then resolving gives the same keys (and the same dangling references of cited entries) as reading everything then resolving, up to key case, provided every referenced parent is cited or follows a cited child that references it',
     'C05_filtered_neg': 'witness: an uncited parent that precedes its only child is lost by the filtered reading (finding C05-filtered-parent-before-child)',
     'C05_filtered_entries_partial': 'under the strong ordering proviso (the FIRST entry of an uncited parent follows a cited child that references it, and its own cross-reference target is cited, absent or later still) the filtered reading stores the same ENTRY (type, fields, persons) under every resolved key as the unfiltered one and gives the same keys and reports',
@@ -774,4 +777,13 @@ LEVEL_NOTE = ('Trusted: Lean kernel; axioms propext/Classical.choice/Quot.sound 
               'under ordering provisos: same keys when every uncited parent follows a cited child (C05_filtered_eq_unfiltered_partial + '
               'C05_filtered_neg; finding C05-filtered-parent-before-child), same entries and reports when moreover the FIRST entry of '
               'such a parent follows the child and its own parent follows it (C05_filtered_entries_partial + C05_filtered_entries_neg; '
-              'findings C05-filtered-duplicate-parent, C05-filtered-grandparent-before-parent).')
+              'findings C05-filtered-duplicate-parent, C05-filtered-grandparent-before-parent).  Spelling: "the spelling in the citation list wins" is '
+              'NOT true of add_extra_citations on an arbitrary database - a key first contributed by a wildcard keeps the database\'s spelling '
+              '(C05_spelling_exact gives the exact rule: first occurrence in the *-substituted list); it is proved for the reading both engines use '
+              '(filtered by the citations) under the quantifier\'s proviso that a key is cited in one consistent spelling '
+              '(C05_citation_spelling_engines; with inconsistent spellings the BibTeX engine emits the first, the Python engine the last one cited). '
+              'C05_cited_first_in_order / C05_wildcard_db_order speak about the citations before the first wildcard only (the rest is an existential '
+              'tail there; C05_expand_spec + C05_crossref_spec determine the whole list).  For the Python engine C05_missing_reported proves the emitted '
+              'keys only up to letter case.  Databases are abstract (key, entry) lists, DbWF / EntryWF are container invariants every reader-built '
+              'database satisfies (C05_reader_wf); keys compare by ASCII lower-casing (C01\'s reader folds with Unicode str.lower(): non-ASCII keys are '
+              'differential only); min_crossrefs <= 0 behaves as 1.')
